@@ -1034,6 +1034,31 @@ func c11SlotOwner(c *Ctx) {
 func slotOf(fa *ssa.FieldAddr) string {
 	inner, ok := fa.X.(*ssa.FieldAddr)
 	if !ok {
+		// the slot as a type of its own whose methods take its mutex themselves: a named struct holding a
+		// context.CancelFunc and a mutex, addressed through a method's receiver
+		if p, isParam := fa.X.(*ssa.Parameter); isParam && p.Parent() != nil && len(p.Parent().Params) > 0 && p.Parent().Params[0] == p && p.Parent().Signature.Recv() != nil {
+			if pt, ok := p.Type().(*types.Pointer); ok {
+				if nt, ok := pt.Elem().(*types.Named); ok && ir.InLibrary(nt) {
+					if st, ok := nt.Underlying().(*types.Struct); ok {
+						hasCancel, hasMu, hasCtx := false, false, false
+						for i := 0; i < st.NumFields(); i++ {
+							if isCancelFunc(st.Field(i).Type()) {
+								hasCancel = true
+							}
+							if ir.IsSyncType(st.Field(i).Type()) {
+								hasMu = true
+							}
+							if ir.TypeStr(st.Field(i).Type()) == "context.Context" {
+								hasCtx = true
+							}
+						}
+						if hasCancel && hasMu && hasCtx && st.NumFields() <= 6 { // (a slot, not a whole transport)
+							return ir.TypeKey(nt)
+						}
+					}
+				}
+			}
+		}
 		return ""
 	}
 	pt, ok := inner.Type().(*types.Pointer)
